@@ -11,6 +11,7 @@ symbolic object state (scalars: sympy expressions over other.f / old.f / paramet
 arrays: allocation extent + copied range + source), path split at every `if`.
 """
 import itertools
+import re
 import sys
 
 import sympy as sp
@@ -197,6 +198,22 @@ class Interp:
                 return fresh("size")
             if cal.startswith("std::move") and len(e["args"]) == 1:
                 return self.val(e["args"][0], st)
+            if cal.startswith("std::exchange") and len(e["args"]) == 2:
+                # std::exchange(x, new): yields the old value of x and stores new in x
+                fr2 = self.field_ref(e["args"][0])
+                if fr2:
+                    o2, f2 = fr2
+                    d2 = st.this if o2 == "this" else st.other
+                    oldv = d2[f2]
+                    newv = self.val(e["args"][1], st)
+                    if isinstance(oldv, Arr):
+                        d2[f2] = newv if isinstance(newv, Arr) else Arr("null")
+                        if oldv.kind == "other" and o2 == "other":
+                            return Arr("moved", src=f2)
+                        return oldv
+                    d2[f2] = newv
+                    st.trace.append("%s.%s := %s (std::exchange)   [%s]" % (o2, f2, newv, ir.locstr(e)))
+                    return oldv
         if k == "Construct":
             if len(e["args"]) == 1:
                 return self.val(e["args"][0], st)
@@ -682,6 +699,11 @@ def main(tier):
                         break
                 if fname in arr_fields:
                     continue
+                if bad and isinstance(bad[0], sp.Basic) and any(re.match(r"^(unk|call|loop|size)\d+$", str(x)) for x in bad[0].free_symbols):
+                    # the value went through something the idiom table does not know: nothing is known about it, in
+                    # particular not that it is wrong
+                    raise ir.AnalysisBroken("%s of %s: member %s receives a value computed by a construct outside the modelled copy idioms (%s); trace: %s" % (
+                        sname, short, fname, bad[0], "; ".join(bad[1].trace[-4:])))
                 if bad:
                     got, st = bad
                     how = str(got)
